@@ -213,9 +213,76 @@ pub fn gen_family(r: &mut Rng, n: usize) -> Vec<F> {
 
 const HEUS: [&str; 3] = ["Simple", "MinModMinPathsMaxVarImp", "MinModMaxVarImpMinPaths"];
 
+/// the 16 Boolean functions of two variables, as formulas
+fn fn2(k: usize) -> F {
+    let a = || Box::new(F::Atom(0));
+    let b = || Box::new(F::Atom(1));
+    let n = |f: F| F::Not(Box::new(f));
+    match k {
+        0 => F::Bot,
+        1 => F::And(a(), b()),
+        2 => F::And(a(), Box::new(n(F::Atom(1)))),
+        3 => F::Atom(0),
+        4 => F::And(Box::new(n(F::Atom(0))), b()),
+        5 => F::Atom(1),
+        6 => F::Xor(a(), b()),
+        7 => F::Or(a(), b()),
+        8 => n(F::Or(a(), b())),
+        9 => F::Iff(a(), b()),
+        10 => n(F::Atom(1)),
+        11 => F::Imp(b(), a()),
+        12 => n(F::Atom(0)),
+        13 => F::Imp(a(), b()),
+        14 => n(F::And(a(), b())),
+        _ => F::Top,
+    }
+}
+
+/// exhaustive small scope (a test, labelled as such): all 256 two-statement ADFs at function level
+fn gen_exhaustive2(out: &mut Out) {
+    for i in 0..16 {
+        for j in 0..16 {
+            out.line(&format!("case adf-exh2-{}", i * 16 + j));
+            out.line("adf 2");
+            out.line(&format!("ac 0 {}", toks(&fn2(i))));
+            out.line(&format!("ac 1 {}", toks(&fn2(j))));
+            for p in ["native", "hybrid", "hybridpre", "bio"] {
+                out.line(&format!("build {p}"));
+            }
+            for p in ["native", "hybrid", "hybridpre", "bio"] {
+                out.line(&format!("grounded {p}"));
+                out.line(&format!("complete {p}"));
+                out.line(&format!("stable {p}"));
+            }
+            for p in ["native", "hybrid", "hybridpre"] {
+                out.line(&format!("stablepre {p}"));
+                out.line(&format!("stmca {p}"));
+                out.line(&format!("stmcb {p}"));
+            }
+            out.line("stablerew native");
+            out.line("stablerew bio");
+            out.line("stablerew2 bio");
+            for h in HEUS {
+                out.line(&format!("ng native {h} stable"));
+                out.line(&format!("ng native {h} twoval"));
+            }
+            // every scripted choice sequence of length <= 2 is covered by a handful of seeds
+            for seed in 0..6 {
+                out.line(&format!("ng native Script:{seed} stable"));
+                out.line(&format!("ng hybrid Script:{seed} twoval"));
+            }
+            out.line("adump native");
+        }
+    }
+}
+
 pub fn gen(r: &mut Rng, cases: usize, size: usize, extra: &[String], out: &mut Out) {
     let maxn = if size == 0 { 6 } else { size };
     let profile = extra.first().map(|s| s.as_str()).unwrap_or("sem");
+    if profile == "exh2" {
+        gen_exhaustive2(out);
+        return;
+    }
     for case in 0..cases {
         out.line(&format!("case adf-{profile}-{case}"));
         let (n, acs): (usize, Vec<F>) = if profile == "large" {
